@@ -871,6 +871,8 @@ class PyCdlib:
         name = splitpath.pop()
 
         parent = self._find_iso_record(b'/' + b'/'.join(splitpath))
+        if not parent.is_dir():
+            raise pycdlibexception.PyCdlibInvalidInput('The parent of the new entry is not a directory')
 
         return (name.decode('utf-8').encode('utf-8'), parent)
 
